@@ -14,10 +14,15 @@
 (***************************************************************************)
 EXTENDS Ifaces, ScpiProcess, Json, IOUtils, TLC, TLCExt
 
-Recs == ndJsonDeserialize(IOEnv.TRACE)
+\* The trace file is read ONCE (in Init) into a TLC register: TLC does not cache the value of a definition
+\* that calls into IOUtils/Json, and re-reading a large file at every reference dominates the run time.
+RecsFile == ndJsonDeserialize(IOEnv.TRACE)
+Recs == TLCGet(42)
 
-VARIABLES l, nfree
-vars == <<l, nfree>>
+VARIABLES l, nfree, carry
+vars == <<l, nfree, carry>>
+\* carry: state the specification keeps from one line to the next - the contents of a long-lived error
+\* queue whose history is recorded over several lines ("cont" lines of kind "queue")
 
 Room(w) == IF "cap" \in DOMAIN w THEN w.cap ELSE -1
 
@@ -117,17 +122,19 @@ FailSetJudge(r) ==
 \* C09, direct binding: the ErrorQueue trait methods on StaticErrorQueue<K>
 CustomTxt == <<99, 117, 115, 116, 111, 109>>     \* "custom"
 RECURSIVE QueueWalk(_, _, _, _, _)
-QueueWalk(K, q, ops, res, i) ==
-  IF i > Len(ops) THEN Len(res) = Len(ops)
+QueueWalk(K, q, ops, res, i) ==       \* [ok, q]: every observed result is the specification's, and the final queue
+  IF i > Len(ops) THEN [ok |-> Len(res) = Len(ops), q |-> q]
   ELSE LET o == ops[i] r == res[i] IN
        CASE o.op = "push" ->
               LET txt == IF ("custom" \in DOMAIN o /\ o.custom) \/ ErrText(o.n) = ANYT THEN CustomTxt ELSE ErrText(o.n) IN
-              r.r = "pushed" /\ QueueWalk(K, QPush(q, K, [n |-> o.n, txt |-> txt]), ops, res, i + 1)
+              IF r.r = "pushed" THEN QueueWalk(K, QPush(q, K, [n |-> o.n, txt |-> txt]), ops, res, i + 1) ELSE [ok |-> FALSE, q |-> q]
          [] o.op = "pop" ->
-              IF q = <<>> THEN r.r = "none" /\ QueueWalk(K, q, ops, res, i + 1)
-              ELSE r.r = "pop" /\ r.n = QFront(q).n /\ r.txt = QFront(q).txt
-                   /\ QueueWalk(K, QPop(q), ops, res, i + 1)
-         [] OTHER -> r.r = "count" /\ r.c = QCount(q) /\ QueueWalk(K, q, ops, res, i + 1)
+              IF q = <<>> THEN (IF r.r = "none" THEN QueueWalk(K, q, ops, res, i + 1) ELSE [ok |-> FALSE, q |-> q])
+              ELSE IF r.r = "pop" /\ r.n = QFront(q).n /\ ("txt" \in DOMAIN r => r.txt = QFront(q).txt)
+                   THEN QueueWalk(K, QPop(q), ops, res, i + 1)
+                   ELSE [ok |-> FALSE, q |-> q]
+         [] OTHER -> IF r.r = "count" /\ r.c = QCount(q) THEN QueueWalk(K, q, ops, res, i + 1) ELSE [ok |-> FALSE, q |-> q]
+QueueLine(r, q0) == QueueWalk(r.K, IF "cont" \in DOMAIN r /\ r.cont THEN q0 ELSE <<>>, r.ops, r.obs, 1)
 
 \* the standard error table: number(), Into<&str>, Display and the Response impl agree with ScpiErrors
 ErrTableOk(o) ==
@@ -153,7 +160,7 @@ Judge(r) ==
     [] r.kind = "runs" -> RunsOk(CfgOf(r.iface), <<>>, r.w, r.msgs, 1, r.obs, 1)
     [] r.kind = "conv" -> [ok |-> ConvJudge(r), free |-> FALSE]
     [] r.kind = "errtable" -> [ok |-> ErrTableOk(r.obs), free |-> FALSE]
-    [] r.kind = "queue" -> [ok |-> QueueWalk(r.K, <<>>, r.ops, r.obs, 1), free |-> FALSE]
+    [] r.kind = "queue" -> [ok |-> QueueLine(r, carry).ok, free |-> FALSE]
     [] r.kind = "procset" -> ProcSetJudge(r)
     [] r.kind = "runset" -> RunSetJudge(r)
     [] r.kind = "multi" -> MultiJudge(r)
@@ -162,9 +169,11 @@ Judge(r) ==
          LET E == ProcEnd(CfgOf(r.iface), r.N, r.obs) IN
          [ok |-> ProcMonitors(r.obs) /\ EndOk(r.N, r.obs) /\ E # {}, free |-> \A st \in E : st.free]
 
-Init == l = 1 /\ nfree = 0
+Init == TLCSet(42, RecsFile) /\ l = 1 /\ nfree = 0 /\ carry = <<>>
 Next == /\ l <= Len(Recs)
-        /\ LET j == Judge(Recs[l]) IN j.ok /\ nfree' = nfree + (IF j.free THEN 1 ELSE 0)
+        /\ IF Recs[l].kind = "queue"
+           THEN LET w == QueueLine(Recs[l], carry) IN w.ok /\ carry' = w.q /\ nfree' = nfree
+           ELSE LET j == Judge(Recs[l]) IN j.ok /\ nfree' = nfree + (IF j.free THEN 1 ELSE 0) /\ carry' = carry
         /\ l' = l + 1
         /\ (l = Len(Recs) => PrintT(<<"TRACE-STATS", Len(Recs), nfree'>>))
 Spec == Init /\ [][Next]_vars
@@ -172,6 +181,6 @@ Spec == Init /\ [][Next]_vars
 \* accepted iff every line was consumed; otherwise name the first line that was not
 TraceAccepted ==
   LET d == TLCGet("stats").diameter IN
-  IF d - 1 = Len(Recs) THEN TRUE
+  IF d - 1 = Len(RecsFile) THEN TRUE
   ELSE PrintT(<<"TRACE-REJECT", d>>) /\ FALSE
 =============================================================================
